@@ -39,5 +39,5 @@ json.dump(meta,open('$d/meta.json','w'),indent=1)
 PY
 fi
 cd /; git -C /repo worktree remove --force $wt
-rm -f /tmp/confirm-$P-$K.diff
+rm -f /tmp/confirm-$P-$K.diff /tmp/confirm-$P-$K.demo1 /tmp/confirm-$P-$K.demo2
 exit 0
